@@ -216,18 +216,21 @@ def validate_random_runs(mol: Mol, g, seeds, tag="rand", parse_text=None):
 # --------------------------------------------------------------------------------------------
 # model checking of an instance (design level)
 # --------------------------------------------------------------------------------------------
-def model_check(mol: Mol, targets, invariants, liveness=True, tag="mc", workers=2, timeout=600, expect_error=False, simulate=None):
+def model_check(mol: Mol, targets, invariants, liveness=True, tag="mc", workers=2, timeout=600, expect_error=False, simulate=None, refine=False):
     """targets: {element index (1-based): [mDa,...]}. Returns dict(ok, states, distinct, violated, outcomes)."""
     with common.Scratch(tag) as d:
         n = len(mol.elems)
         tg = "<<" + ", ".join("{" + ", ".join(tla(int(t)) for t in targets.get(i, [0])) + "}" for i in range(1, n + 1)) + ">>"
-        write_instance_module(d, mol, base="GenerateMC", extra_defs=f"MCTargets == {tg}\n")
+        # refine: also check that the machine implements the abstract accumulation machine FirstCrossing (C07)
+        write_instance_module(d, mol, base="GenerateRefinesFC" if refine else "GenerateMC", extra_defs=f"MCTargets == {tg}\n")
         cfg = os.path.join(d, "MC.cfg")
         with open(cfg, "w") as f:
             f.write("SPECIFICATION Spec\nCONSTANTS\n Elems <- MCElems\n Tok <- MCTok\n Targets <- MCTargets\n")
             for inv in invariants:
                 f.write(f"INVARIANT {inv}\n")
             f.write("PROPERTY AttachSound\n")
+            if refine:
+                f.write("PROPERTY ImplementsFirstCrossing\nINVARIANT FCTheorem\n")
             if liveness:
                 f.write("PROPERTY Termination\n")
         extra = ["-simulate", f"num={simulate[0]}", "-depth", str(simulate[1]), "-seed", str(common.seed() + 1)] if simulate else []
